@@ -123,7 +123,7 @@ def pinned_env(extra=None, hashseed="0"):
         "VERIF_REPO_SRC": REPO_SRC,
     }
     for k in ("VERIF_SEED", "VERIF_TIER", "VERIF_BUDGET_S", "VERIF_SCRATCH", "VERIF_WORKERS",
-              "VERIF_RUNS", "VERIF_P_INVIVO", "VERIF_EVIDENCE_DIR", "VERIF_NO_CONFIRM", "VERIF_NO_SELFTEST", "VERIF_DEBUG", "TMPDIR"):
+              "VERIF_RUNS", "VERIF_P_INVIVO", "VERIF_VARIANT_ENV", "VERIF_VARIANT_NAME", "PYTHONOPTIMIZE", "VERIF_EVIDENCE_DIR", "VERIF_NO_CONFIRM", "VERIF_NO_SELFTEST", "VERIF_DEBUG", "TMPDIR"):
         if k in os.environ:
             env[k] = os.environ[k]
     if extra:
@@ -151,8 +151,11 @@ def make_trace(engine, batch_seed, i, tier):
     rng = random.Random(seed)
     knobs = engine.gen_knobs(rng, tier)
     ops = engine.generate(rng, knobs)
-    return {"property": engine.PID, "batch_seed": batch_seed, "run": i, "seed": seed,
-            "knobs": knobs, "ops": ops}
+    t = {"property": engine.PID, "batch_seed": batch_seed, "run": i, "seed": seed, "knobs": knobs, "ops": ops}
+    if os.environ.get("VERIF_VARIANT_ENV"):
+        # the interpreter-level environment this run was executed under (e.g. PYTHONOPTIMIZE=1); --replay re-creates it
+        t["env"] = json.loads(os.environ["VERIF_VARIANT_ENV"])
+    return t
 
 
 def safe_execute(engine, trace):
@@ -399,6 +402,8 @@ def run_batch(pid, tier, batch_seed, budget_s=None, n_runs=None):
     per_run_timeout = cfg.get("per_run_timeout", 120)
     workers = min(n_workers(), cfg.get("max_workers", 16))
     selftest_n = 0 if os.environ.get("VERIF_NO_SELFTEST") else cfg.get("selftest", 0)
+    if os.environ.get("VERIF_VARIANT_NAME"):
+        print(f"[lian-sim] environment variant {os.environ['VERIF_VARIANT_NAME']}: {os.environ.get('VERIF_VARIANT_ENV')}", flush=True)
     print(f"[lian-sim] property={pid} tier={tier} VERIF_SEED={batch_seed} workers={workers} "
           f"runs={'budgeted' if not n_runs else n_runs} budget_s={budget_s:.0f} repo_src={REPO_SRC}", flush=True)
 
